@@ -9,6 +9,7 @@
 -/
 import PdshVerif.Gen.FnCbuf
 import PdshVerif.Cbuf.Model
+import PdshVerif.Cbuf.Inv
 
 namespace PdshVerif.Bridge.Cbuf
 open PdshVerif.Cbuf
@@ -68,4 +69,141 @@ theorem cbuf_dropper_bridge (c : Cbuf) (len : Nat) (h : InC c) (hl : len ≤ c.u
   simp only [e1, e2, e3, r1, r2, r3, r4, r5, and_self, not_true_eq_false, if_false, tmod_nat _ _ (Nat.succ_pos c.size), ← hT, hshr,
     ite_self]
 
+set_option linter.unusedSimpArgs false
+
+/-! ### `cbuf_find_unread_line` -/
+
+theorem data_read (c : Cbuf) (i : Nat) (hi : i < c.data.size) :
+    ((((c.data.toList.map (·.toNat)).getD i 0 : Nat) : Int) = 10) ↔ (c.data.getD i 0 = 10) := by
+  have h1 : (c.data.toList.map (·.toNat)).getD i 0 = (c.data.getD i 0).toNat := by
+    simp [List.getD_eq_getElem?_getD, Array.getD_eq_getD_getElem?, hi]
+  rw [h1]
+  constructor
+  · intro h
+    have : (c.data.getD i 0).toNat = 10 := by omega
+    exact UInt8.toNat_inj.mp this
+  · intro h; rw [h]; rfl
+
+/-- a C `int` -/
+def IsInt (x : Int) : Prop := -2147483648 ≤ x ∧ x ≤ 2147483647
+
+/-- the scan loop: with `k` unread cells between `i` and `i_in`, any fuel above `k` on both sides -/
+theorem find_loop (c : Cbuf) (h : InC c) (f0 : Nat) : ∀ (k gf mf i n m l : Nat) (chars lines : Int),
+    k < gf → k < mf → i ≤ c.size → k ≤ c.size → c.iIn ≤ c.size →
+    ((i + k < c.size + 1 → c.iIn = i + k) ∧ (c.size + 1 ≤ i + k → c.iIn + (c.size + 1) = i + k)) →
+    n + k ≤ c.size → m ≤ n → l ≤ n → IsInt chars → IsInt lines →
+    ∃ ch' i' n', cbuf_find_unread_line_loop1 f0 (toC c) gf chars (i : Int) (n : Int) (m : Int) (l : Int) lines =
+      some (ch', i', n', ((findLoop c.data c.size c.iIn mf i n chars lines m l).1 : Int),
+            ((findLoop c.data c.size c.iIn mf i n chars lines m l).2.1 : Int),
+            (findLoop c.data c.size c.iIn mf i n chars lines m l).2.2) := by
+  have hs := h.size; have hd := h.data
+  intro k
+  induction k with
+  | zero =>
+    intro gf mf i n m l chars lines hg hm hi _ hin hrel _ _ _ _ _
+    have e : i = c.iIn := by omega
+    cases gf with
+    | zero => omega
+    | succ gf =>
+      cases mf with
+      | zero => omega
+      | succ mf =>
+        subst e
+        exact ⟨chars, (c.iIn : Int), (n : Int), by simp [cbuf_find_unread_line_loop1, findLoop, toC]⟩
+  | succ k ih =>
+    intro gf mf i n m l chars lines hg hm hi hk hin hrel hn hmn hln hc hl
+    cases gf with
+    | zero => omega
+    | succ gf =>
+      cases mf with
+      | zero => omega
+      | succ mf =>
+        have hne : i ≠ c.iIn := by omega
+        have hnei : ¬ ((i : Int) = (c.iIn : Int)) := by omega
+        have hnei' : ¬ ((c.iIn : Int) = (i : Int)) := by omega
+        unfold IsInt at hc hl
+        have hidx : i < c.data.size := by omega
+        have hrd := data_read c i hidx
+        have hnext := @wrap_cases (i + 1) (c.size + 1) (by omega)
+        have hmodlt := Nat.mod_lt (i + 1) (show 0 < c.size + 1 by omega)
+        have e3 : ((i : Int) + 1) = ((i + 1 : Nat) : Int) := by omega
+        have e4 : ((c.size : Int) + 1) = ((c.size + 1 : Nat) : Int) := by omega
+        have etm := tmod_nat (i + 1) (c.size + 1) (Nat.succ_pos _)
+        -- the recursive call, for every value the updated state can take
+        have hrec := fun (n' m' l' : Nat) (chars' lines' : Int) (a : n' + k ≤ c.size) (b : m' ≤ n') (d : l' ≤ n')
+            (e : IsInt chars') (f : IsInt lines') =>
+          ih gf mf ((i + 1) % (c.size + 1)) n' m' l' chars' lines' (by omega) (by omega) (by omega) (by omega) hin
+            (by omega) a b d e f
+        simp only [cbuf_find_unread_line_loop1, findLoop]
+        simp only [toC, ne_eq, hnei, hnei', not_false_eq_true, if_true, hne, if_false]
+        have r1 : (-2147483648 ≤ (n : Int) + 1 ∧ (n : Int) + 1 ≤ 2147483647) := by omega
+        have r3 : (0 ≤ (i : Int) ∧ (i : Int) < ((List.map (fun x => x.toNat) c.data.toList).length : Int)) := by
+          simp only [List.length_map, Array.length_toList]; omega
+        have r5 : (-2147483648 ≤ (l : Int) + 1 ∧ (l : Int) + 1 ≤ 2147483647) := by omega
+        have r6 : (-2147483648 ≤ ((i + 1 : Nat) : Int) ∧ ((i + 1 : Nat) : Int) ≤ 2147483647) := by omega
+        have r7 : (-2147483648 ≤ ((c.size + 1 : Nat) : Int) ∧ ((c.size + 1 : Nat) : Int) ≤ 2147483647) := by omega
+        have r8 : (¬ ((c.size + 1 : Nat) : Int) = 0 ∧ ¬(((i + 1 : Nat) : Int) = -2147483648 ∧ ((c.size + 1 : Nat) : Int) = -1)) := by omega
+        have r2 : (-2147483648 ≤ chars - 1 ∧ chars - 1 ≤ 2147483647) ∨ ¬ chars > 0 := by omega
+        have r4 : (-2147483648 ≤ lines - 1 ∧ lines - 1 ≤ 2147483647) ∨ ¬ lines > 0 := by omega
+        have key : ∀ (chars' lines' : Int) (m' l' : Nat), IsInt chars' → IsInt lines' → m' ≤ n + 1 → l' ≤ n + 1 →
+            ∃ ch' i' n', (if chars' = 0 ∨ lines' = 0 then some (chars', (i : Int), ((n + 1 : Nat) : Int), (m' : Int), (l' : Int), lines')
+                else cbuf_find_unread_line_loop1 f0 (toC c) gf chars' (((i + 1) % (c.size + 1) : Nat) : Int) ((n + 1 : Nat) : Int) (m' : Int) (l' : Int) lines') =
+              some (ch', i', n',
+                ((if chars' = 0 ∨ lines' = 0 then (m', l', lines') else
+                    findLoop c.data c.size c.iIn mf ((i + 1) % (c.size + 1)) (n + 1) chars' lines' m' l').1 : Int),
+                ((if chars' = 0 ∨ lines' = 0 then (m', l', lines') else
+                    findLoop c.data c.size c.iIn mf ((i + 1) % (c.size + 1)) (n + 1) chars' lines' m' l').2.1 : Int),
+                (if chars' = 0 ∨ lines' = 0 then (m', l', lines') else
+                    findLoop c.data c.size c.iIn mf ((i + 1) % (c.size + 1)) (n + 1) chars' lines' m' l').2.2) := by
+          intro chars' lines' m' l' a1 a2 a3 a4
+          by_cases hst : chars' = 0 ∨ lines' = 0
+          · simp only [hst, if_true]; exact ⟨_, _, _, rfl⟩
+          · simp only [hst, if_false]
+            exact hrec (n + 1) m' l' chars' lines' (by omega) a3 a4 a1 a2
+        have K := key (if chars > 0 then chars - 1 else chars)
+          (if c.data.getD i 0 = 10 ∧ lines > 0 then lines - 1 else lines)
+          (if c.data.getD i 0 = 10 then n + 1 else m) (if c.data.getD i 0 = 10 then l + 1 else l)
+          (by unfold IsInt; by_cases q : chars > 0 <;> simp only [q, if_true, if_false] <;> omega)
+          (by unfold IsInt; by_cases q : (c.data.getD i 0 = 10 ∧ lines > 0) <;> simp only [q, if_true, if_false] <;> omega)
+          (by by_cases q : c.data.getD i 0 = 10 <;> simp only [q, if_true, if_false] <;> omega)
+          (by by_cases q : c.data.getD i 0 = 10 <;> simp only [q, if_true, if_false] <;> omega)
+        simp only [toC] at K
+        by_cases hnl : c.data.getD i 0 = 10 <;> by_cases hcp : chars > 0 <;> by_cases hlp : lines > 0 <;>
+          simp only [Int.toNat_natCast, hrd, hnl, hcp, hlp, decide_true, decide_false, r1, r3, r5, e3, e4, r6, r7, r8, etm,
+            not_true_eq_false, if_false, if_true, and_false, false_and, and_true, true_and, not_false_eq_true,
+            Bool.false_eq_true, and_self] at K ⊢ <;>
+          first
+            | exact K
+            | (have q1 : (-2147483648 ≤ chars - 1 ∧ chars - 1 ≤ 2147483647) := by omega
+               have q2 : (-2147483648 ≤ lines - 1 ∧ lines - 1 ≤ 2147483647) := by omega
+               simp only [q1, q2, not_true_eq_false, if_false]; exact K)
+            | (have q1 : (-2147483648 ≤ chars - 1 ∧ chars - 1 ≤ 2147483647) := by omega
+               simp only [q1, not_true_eq_false, if_false]; exact K)
+            | (have q2 : (-2147483648 ≤ lines - 1 ∧ lines - 1 ≤ 2147483647) := by omega
+               simp only [q2, not_true_eq_false, if_false]; exact K)
+
+/-- BRIDGE `cbuf_find_unread_line` = `findUnreadLine` (return value and `*nlines` afterwards), for every valid
+    buffer below 2^30 bytes, all `int` arguments and every fuel ≥ size + 2 -/
+theorem cbuf_find_unread_line_bridge (c : Cbuf) (hi : Inv c) (h : InC c) (fuel : Nat) (chars lines : Int)
+    (hc : IsInt chars) (hl : IsInt lines) (hf : c.size + 2 ≤ fuel) :
+    cbuf_find_unread_line fuel (toC c) chars lines =
+      some (((findUnreadLine c chars lines).1 : Int), ((findUnreadLine c chars lines).2 : Int)) := by
+  have := hi.used; have := hi.iout; have := hi.iin; have hio := hi.inout
+  unfold cbuf_find_unread_line findUnreadLine
+  by_cases h0 : lines = 0 ∨ (lines ≤ -1 ∧ chars ≤ 0)
+  · simp [h0]
+  · by_cases hu : c.used = 0
+    · simp [h0, hu, toC]
+    · have hu' : ¬ ((c.used : Int) = 0) := by omega
+      obtain ⟨a, b, d, hh⟩ := find_loop c h fuel c.used fuel (c.size + 2) c.iOut 0 0 0
+        (if lines > 0 then -1 else chars) lines (by omega) (by omega) (by omega) (by omega) (by omega) (by omega)
+        (by omega) (by omega) (by omega)
+        (by unfold IsInt at *; by_cases q : lines > 0 <;> simp only [q, if_true, if_false] <;> omega) hl
+      simp only [h0, if_false, hu, show (toC c).used = (c.used : Int) from rfl, hu',
+        show (toC c).i_out = (c.iOut : Int) from rfl, decide_eq_true_eq]
+      simp only [Int.natCast_zero] at hh
+      rw [hh]
+      simp only
+      generalize findLoop c.data c.size c.iIn (c.size + 2) c.iOut 0 (if lines > 0 then -1 else chars) lines 0 0 = r
+      by_cases q : r.2.2 > 0 <;> simp [q]
 end PdshVerif.Bridge.Cbuf
